@@ -83,6 +83,7 @@ func checkC09(c *vh.Ctx) {
 		}
 		rec.Replay.Project.GenWeather()
 		c09RunProject(c, rec.Replay.Project, rec.Replay.Opt, corr)
+		c09DayStage(c)
 		c09Correspond(c, corr)
 		return
 	}
@@ -110,6 +111,7 @@ func checkC09(c *vh.Ctx) {
 	c.Res.Extra["whole_runs"] = k
 	c.Res.Extra["whole_run_seconds"] = time.Since(t0).Seconds()
 	c09KernelStage(c, corr)
+	c09DayStage(c) // radia / N-content functions / growth / N uptake of the day (c09_day.go)
 	c09Correspond(c, corr)
 }
 
@@ -317,6 +319,8 @@ func c09RunProject(c *vh.Ctx, p *proj.Project, o proj.CropOpt, corr *c09Corr) {
 		AfterWater: func(g *hermes.GlobalVarsMain, w *hermes.WaterSharedVars, zeit, subd int, wdt, steps float64) {
 			if growing && subd == 1 {
 				gAW = *g // the state PhytoOut is called on (after Water of the first sub-step)
+				// stage cropday (c09_day.go): the same state feeds the crop-day kernels
+				c09DaySample(c, &gAW, &lPre, zeit, p, o)
 			}
 		},
 		AfterNitro: func(g *hermes.GlobalVarsMain, w *hermes.WaterSharedVars, n *hermes.NitroSharedVars, zeit, subd int, wdt, steps float64) {
